@@ -84,7 +84,7 @@ def step (st : St) (n : Nat) (ln : Line) : St × List String :=
     let impl := o.getD 0 "" == "1"
     let after := adjustReps reps src dst
     let j := if impl && reps.contains dst then ["isGoodMove/two-replicas-on-one-server"]
-      else if impl && satisfies rp reps && !satisfies rp after then ["isGoodMove/placement-broken"] else []
+      else if impl && satisfies rp reps && !satisfies rp after then ["isGoodMove" ++ brokenClass rp] else []
     (st, diff n ln [if m then "1" else "0"] ++ tag n j (String.intercalate " " a) ++ [if m then "COV good.true" else "COV good.false"])
   | "sat" =>
     let rp := rpOfByte (tokNat (a.getD 0 "")); let loc := parseLoc (a.getD 1 "")
